@@ -128,6 +128,27 @@ func checkHubTrust(p *core.Program, r *core.Report, R4 string) {
 	if n < 2 {
 		r.Fail(R4, "SetTrusted(true) sites", "", "expected the registration and the hello-ok trust writers")
 	}
+	// (a') SetTrusted(false): only the user's own revocations clear a registration
+	{
+		unreg := p.Method("hub", "Hub", "UnregisterRemoteSKI")
+		cancel := p.Method("hub", "Hub", "CancelPairingWithSKI")
+		nf := 0
+		for _, s := range core.Sites(fns, func(in ssa.Instruction) bool {
+			c := core.Common(in)
+			return c != nil && core.CallsMethodNamed(in, apiPath, "ServiceDetails", "SetTrusted") && len(c.Args) == 2 && !isBoolConst(c.Args[1], true)
+		}) {
+			nf++
+			key := "SetTrusted(false) in " + p.FnName(s.Fn)
+			if (unreg != nil && withinOp(p, s.Fn, unreg, 3)) || (cancel != nil && withinOp(p, s.Fn, cancel, 3)) {
+				r.OK(R4, key, p.Pos(s.In.Pos()), "user revocation")
+			} else {
+				r.Fail(R4, key, p.Pos(s.In.Pos()), "a registration is cleared outside UnregisterRemoteSKI / CancelPairingWithSKI (e.g. on a handshake state report): the SHIP layer reports every transport failure while waiting for the peer's trust as 'rejected', so a peer restart at that moment silently unregisters it and the two hubs never connect again")
+			}
+		}
+		if nf < 2 {
+			r.Fail(R4, "SetTrusted(false) sites", "", "expected the unregister and the cancel trust writers")
+		}
+	}
 	// (b) predicates return the stored flags
 	okPaired := true
 	core.EachInstr(paired, func(in ssa.Instruction) {
